@@ -2,6 +2,14 @@
    the ring / channel hand-off model of Model/Ring.v, for every schedule, and
    the converse (the bound CAP + 2 <= S is tight).
 
+   The transition system includes BOTH failure paths: the consumer's (Fail2,
+   then draining) and the producer's (SendTerm taken while a filled buffer is
+   withheld: the buffer is abandoned, see Model/Ring.v).  All theorems are
+   about every accepted event list, hence about every combination and order
+   of the two failures.  "The sent buffers" are [seq 0 (n_sent evs)], where
+   [n_sent evs] is the number of Send events; the acquired ones are
+   [seq 0 (n_acquired evs)], and n_acquired evs - n_sent evs <= 1.
+
    The ring size is called [S]; the successor of [nat] is [Datatypes.S]. *)
 
 From Coq Require Import List Arith Lia PeanoNat Bool.
@@ -83,11 +91,10 @@ Qed.
 
 Lemma step_sendterm S CAP s s' :
   step S CAP s SendTerm = Some s' ->
-  filling s = None /\ term_sent s = false /\ produced s = n_total s /\
+  term_sent s = false /\ produced s = n_total s /\
   length (queue s) < CAP /\ s' = st_sendterm s.
 Proof.
   unfold step. intros H.
-  destruct (filling s) as [k|]; [discriminate H|].
   destruct (term_sent s); [discriminate H|].
   destruct (Nat.eqb_spec (produced s) (n_total s)) as [Heq|Hne]; [|discriminate H].
   destruct (Nat.ltb_spec (length (queue s)) CAP) as [Hlt|Hge]; [|discriminate H].
@@ -151,16 +158,74 @@ Proof.
 Qed.
 
 (* ------------------------------------------------------------------ *)
+(* Counting events of a trace                                          *)
+(* ------------------------------------------------------------------ *)
+
+Definition ev_inc (a e : ev) : nat := if ev_eqb a e then 1 else 0.
+
+Lemma count_ev_nil (a : ev) : count_ev a [] = 0.
+Proof. reflexivity. Qed.
+
+Lemma count_ev_cons (a e : ev) (evs : list ev) :
+  count_ev a (e :: evs) = ev_inc a e + count_ev a evs.
+Proof.
+  unfold count_ev, ev_inc. cbn [filter]. destruct (ev_eqb a e); reflexivity.
+Qed.
+
+Lemma count_ev_app (a : ev) (l1 l2 : list ev) :
+  count_ev a (l1 ++ l2) = count_ev a l1 + count_ev a l2.
+Proof.
+  unfold count_ev. rewrite filter_app, app_length. reflexivity.
+Qed.
+
+Lemma count_ev_le_length (a : ev) (evs : list ev) : count_ev a evs <= length evs.
+Proof.
+  induction evs as [|e evs IH]; [apply le_n|].
+  rewrite count_ev_cons. unfold ev_inc. cbn [length]. destruct (ev_eqb a e); lia.
+Qed.
+
+(* lifting a step-invariant indexed by two event counters (sends, acquires)
+   to runs *)
+Lemma run_invariant_cnt (S CAP : nat) (P : nat -> nat -> st -> Prop) :
+  (forall k a s e s', P k a s -> step S CAP s e = Some s' ->
+                      P (ev_inc Send e + k) (ev_inc Acquire e + a) s') ->
+  forall evs k a s s', P k a s -> run S CAP s evs = Some s' ->
+                       P (n_sent evs + k) (n_acquired evs + a) s'.
+Proof.
+  intros Hstep evs.
+  induction evs as [|e evs IH]; intros k a s s' HP Hrun.
+  - cbn [run] in Hrun. injection Hrun as Hrun. subst s'. exact HP.
+  - cbn [run] in Hrun.
+    destruct (step S CAP s e) as [s1|] eqn:Hs; [|discriminate Hrun].
+    unfold n_sent, n_acquired. rewrite !count_ev_cons.
+    replace (ev_inc Send e + count_ev Send evs + k)
+      with (n_sent evs + (ev_inc Send e + k)) by (unfold n_sent; lia).
+    replace (ev_inc Acquire e + count_ev Acquire evs + a)
+      with (n_acquired evs + (ev_inc Acquire e + a)) by (unfold n_acquired; lia).
+    apply (IH _ _ s1 s'); [|exact Hrun].
+    apply (Hstep k a s e s1 HP Hs).
+Qed.
+
+(* ------------------------------------------------------------------ *)
 (* The bookkeeping invariant (independent of the ring size)            *)
 (* ------------------------------------------------------------------ *)
 
-Record Inv (CAP n : nat) (s : st) : Prop := mkInv {
-  (* live ids are consecutive and end at [produced]; [lo] is the number of
-     buffers the consumer has already released *)
+(* [k] is the number of buffers SENT so far (the number of Send events of the
+   trace that led to [s]): the buffers sent are 0 .. k-1.  The producer has
+   acquired k buffers, or k+1: the extra one, buffer k, is either being filled
+   or has been abandoned together with the sending of the terminator. *)
+Record Inv (CAP n k : nat) (s : st) : Prop := mkInv {
+  (* the ids sent and not yet released by the consumer are consecutive and end
+     at [k]; [lo] is the number of buffers the consumer has already released *)
   inv_live : exists lo,
-      live s = seq lo (produced s - lo) /\ lo <= produced s /\
+      opt_list (held s) ++ qids (queue s) = seq lo (k - lo) /\ lo <= k /\
       length (consumed s) <= lo + length (opt_list (held s)) /\
       (failed s = false -> length (consumed s) = lo + length (opt_list (held s)));
+  inv_fill : match filling s with
+             | Some f => f = k /\ produced s = Datatypes.S k
+             | None => produced s = k \/
+                       (produced s = Datatypes.S k /\ term_sent s = true)
+             end;
   inv_cap : length (queue s) <= CAP;
   inv_le : produced s <= n_total s;
   (* the terminator, once sent and not yet received, is the last message *)
@@ -174,10 +239,30 @@ Record Inv (CAP n : nat) (s : st) : Prop := mkInv {
   inv_n : n_total s = n
 }.
 
-Lemma inv_init (CAP n : nat) : Inv CAP n (init n).
+(* the old formulation: all live ids (the buffer being filled included) are
+   consecutive; after an abandon they end one short of [produced] *)
+Lemma inv_live_seq (CAP n k : nat) (s : st) :
+  Inv CAP n k s ->
+  exists lo, live s = seq lo (k + length (opt_list (filling s)) - lo) /\ lo <= k /\
+             k + length (opt_list (filling s)) <= produced s <= Datatypes.S k.
+Proof.
+  intros HI.
+  destruct (inv_live _ _ _ _ HI) as (lo & Hl & Hlo & _).
+  pose proof (inv_fill _ _ _ _ HI) as Hf.
+  exists lo. unfold live. rewrite app_assoc, Hl.
+  destruct (filling s) as [f|]; cbn [opt_list length].
+  - destruct Hf as (Hf & Hp). subst f.
+    split; [|lia].
+    replace (k + 1 - lo) with (Datatypes.S (k - lo)) by lia.
+    rewrite seq_S. f_equal. f_equal. lia.
+  - rewrite app_nil_r, Nat.add_0_r. split; [reflexivity|]. lia.
+Qed.
+
+Lemma inv_init (CAP n : nat) : Inv CAP n 0 (init n).
 Proof.
   constructor; unfold init, live; prj; cbn [opt_list qids app length map andb].
   - exists 0. cbn. repeat split; lia.
+  - left. reflexivity.
   - lia.
   - lia.
   - reflexivity.
@@ -188,24 +273,22 @@ Proof.
   - reflexivity.
 Qed.
 
-Lemma inv_step (S CAP n : nat) (s : st) (e : ev) (s' : st) :
-  Inv CAP n s -> step S CAP s e = Some s' -> Inv CAP n s'.
+Lemma inv_step (S CAP n k : nat) (s : st) (e : ev) (s' : st) :
+  Inv CAP n k s -> step S CAP s e = Some s' -> Inv CAP n (ev_inc Send e + k) s'.
 Proof.
   intros HI Hs.
-  destruct HI as [Hlive Hcap Hle Hshape Hterm Hfin Hwait Hcons Hn].
+  destruct HI as [Hlive Hfill Hcap Hle Hshape Hterm Hfin Hwait Hcons Hn].
   destruct Hlive as (lo & Hl & Hlo & Hcl & Hce).
-  unfold live in Hl.
-  destruct e.
+  destruct e; unfold ev_inc; cbn [ev_eqb plus].
   - (* Acquire *)
     destruct (step_acquire _ _ _ _ Hs) as (Hf & Ht & Hlt & Hs').
     subst s'. clear Hs.
-    rewrite Hf in Hl. cbn [opt_list] in Hl. rewrite app_nil_r in Hl.
-    constructor; unfold st_acquire, live; prj.
-    + exists lo. cbn [opt_list].
-      split; [|split; [lia|split; [exact Hcl|exact Hce]]].
-      rewrite app_assoc, Hl.
-      replace (Datatypes.S (produced s) - lo) with (Datatypes.S (produced s - lo)) by lia.
-      rewrite seq_S. f_equal. f_equal. lia.
+    rewrite Hf, Ht in Hfill.
+    assert (Hp : produced s = k).
+    { destruct Hfill as [Hp|(_ & Hx)]; [exact Hp|discriminate Hx]. }
+    constructor; unfold st_acquire; prj.
+    + exists lo. split; [exact Hl|split; [exact Hlo|split; [exact Hcl|exact Hce]]].
+    + split; [exact Hp|rewrite Hp; reflexivity].
     + exact Hcap.
     + lia.
     + exact Hshape.
@@ -215,16 +298,19 @@ Proof.
     + exact Hcons.
     + exact Hn.
   - (* Send *)
-    destruct (step_send _ _ _ _ Hs) as (k & Hf & Hlt & Hs').
+    destruct (step_send _ _ _ _ Hs) as (f & Hf & Hlt & Hs').
     subst s'. clear Hs.
     assert (Ht : term_sent s = false).
     { destruct (term_sent s) eqn:Ht; [|reflexivity].
       destruct (Hterm eq_refl) as (Hf' & _). rewrite Hf in Hf'. discriminate Hf'. }
-    rewrite Hf in Hl. cbn [opt_list] in Hl.
+    rewrite Hf in Hfill. destruct Hfill as (Hfk & Hp). subst f.
     rewrite Ht in Hshape. cbn [andb] in Hshape. rewrite app_nil_r in Hshape.
-    constructor; unfold st_send, live; prj.
-    + exists lo. cbn [opt_list]. rewrite qids_app. cbn [qids]. rewrite app_nil_r.
-      split; [exact Hl|split; [exact Hlo|split; [exact Hcl|exact Hce]]].
+    constructor; unfold st_send; prj.
+    + exists lo. rewrite qids_app. cbn [qids]. rewrite app_assoc, Hl.
+      split; [|split; [lia|split; [exact Hcl|exact Hce]]].
+      replace (Datatypes.S k - lo) with (Datatypes.S (k - lo)) by lia.
+      rewrite seq_S. f_equal. f_equal. lia.
+    + left. exact Hp.
     + rewrite app_length. cbn [length]. lia.
     + exact Hle.
     + rewrite Ht. cbn [andb]. rewrite app_nil_r, qids_app, map_app. cbn [qids map].
@@ -234,21 +320,25 @@ Proof.
     + exact Hwait.
     + exact Hcons.
     + exact Hn.
-  - (* SendTerm *)
-    destruct (step_sendterm _ _ _ _ Hs) as (Hf & Ht & Hp & Hlt & Hs').
+  - (* SendTerm, with or without an abandoned buffer *)
+    destruct (step_sendterm _ _ _ _ Hs) as (Ht & Hp & Hlt & Hs').
     subst s'. clear Hs.
     assert (Hfi : finished s = false).
     { destruct (finished s) eqn:Hfi; [|reflexivity].
       destruct (Hfin eq_refl) as (Ht' & _). rewrite Ht in Ht'. discriminate Ht'. }
     rewrite Ht in Hshape. cbn [andb] in Hshape. rewrite app_nil_r in Hshape.
-    constructor; unfold st_sendterm, live; prj.
+    constructor; unfold st_sendterm; prj.
     + exists lo. rewrite qids_app. cbn [qids]. rewrite app_nil_r.
       split; [exact Hl|split; [exact Hlo|split; [exact Hcl|exact Hce]]].
+    + destruct (filling s) as [f|].
+      * right. split; [exact (proj2 Hfill)|reflexivity].
+      * rewrite Ht in Hfill. left.
+        destruct Hfill as [Hp'|(_ & Hx)]; [exact Hp'|discriminate Hx].
     + rewrite app_length. cbn [length]. lia.
     + exact Hle.
     + rewrite Hfi. cbn [andb negb]. rewrite qids_app. cbn [qids]. rewrite app_nil_r.
       f_equal. exact Hshape.
-    + intros _. split; [exact Hf|exact Hp].
+    + intros _. split; [reflexivity|exact Hp].
     + intros Hfi'. rewrite Hfi in Hfi'. discriminate Hfi'.
     + exact Hwait.
     + exact Hcons.
@@ -256,17 +346,18 @@ Proof.
   - (* RecvWait *)
     destruct (step_recvwait _ _ _ _ Hs) as (Hw & Hfi & Hs').
     subst s'. clear Hs.
-    constructor; unfold st_recvwait, live; prj.
+    constructor; unfold st_recvwait; prj.
     + cbn [opt_list app length].
       destruct (held s) as [h|] eqn:Hh; cbn [opt_list app length] in Hl, Hcl, Hce.
-      * destruct (produced s - lo) as [|m] eqn:Hm; [discriminate Hl|].
+      * destruct (k - lo) as [|m] eqn:Hm; [discriminate Hl|].
         cbn [seq] in Hl. injection Hl as Hh0 Hrest.
         exists (Datatypes.S lo).
-        replace (produced s - Datatypes.S lo) with m by lia.
+        replace (k - Datatypes.S lo) with m by lia.
         split; [exact Hrest|split; [lia|split; [lia|]]].
         intros Hfa. specialize (Hce Hfa). lia.
       * exists lo.
         split; [exact Hl|split; [exact Hlo|split; [exact Hcl|exact Hce]]].
+    + exact Hfill.
     + exact Hcap.
     + exact Hle.
     + exact Hshape.
@@ -281,20 +372,21 @@ Proof.
     destruct (Hwait Hw) as (Hh & Hfi).
     rewrite Hh in Hl, Hcl, Hce. cbn [opt_list app length] in Hl, Hcl, Hce.
     rewrite Hfi in Hshape. cbn [negb] in Hshape. rewrite andb_true_r in Hshape.
-    destruct Hcase as [(k & r & Hq & Hs')|(r & Hq & Hs')]; subst s'.
+    destruct Hcase as [(q & r & Hq & Hs')|(r & Hq & Hs')]; subst s'.
     + (* a buffer *)
       rewrite Hq in Hl, Hshape, Hcap. cbn [qids app map length] in Hl, Hshape, Hcap.
-      assert (Hk : k = lo /\ produced s - lo <> 0).
-      { destruct (produced s - lo) as [|m]; [discriminate Hl|].
+      assert (Hk : q = lo /\ k - lo <> 0).
+      { destruct (k - lo) as [|m]; [discriminate Hl|].
         cbn [seq] in Hl. injection Hl as Hk _. split; [exact Hk|discriminate]. }
       destruct Hk as (Hk & Hpos).
-      constructor; unfold st_recv_buf, live; prj.
+      constructor; unfold st_recv_buf; prj.
       * exists lo. cbn [opt_list app length].
         split; [exact Hl|split; [exact Hlo|]].
         destruct (failed s) eqn:Hfa.
         -- split; [lia|intros Hfa'; discriminate Hfa'].
         -- specialize (Hce eq_refl). rewrite app_length. cbn [length].
            split; [lia|intros _; lia].
+      * exact Hfill.
       * lia.
       * exact Hle.
       * rewrite Hfi. cbn [negb]. rewrite andb_true_r.
@@ -317,10 +409,11 @@ Proof.
           + discriminate Hshape.
         - discriminate Hshape. }
       destruct Hr as (Hr & Ht). subst r.
-      constructor; unfold st_recv_term, live; prj.
+      constructor; unfold st_recv_term; prj.
       * exists lo. rewrite Hh. cbn [qids opt_list app length].
         cbn [qids app] in Hl.
         split; [exact Hl|split; [exact Hlo|split; [exact Hcl|exact Hce]]].
+      * exact Hfill.
       * cbn [length]. lia.
       * exact Hle.
       * rewrite Ht. reflexivity.
@@ -332,10 +425,11 @@ Proof.
   - (* Fail2 *)
     destruct (step_fail2 _ _ _ _ Hs) as (Hfi & Hfa & Hs').
     subst s'. clear Hs.
-    constructor; unfold st_fail, live; prj.
+    constructor; unfold st_fail; prj.
     + exists lo.
       split; [exact Hl|split; [exact Hlo|split; [exact Hcl|]]].
       intros Hfa'. discriminate Hfa'.
+    + exact Hfill.
     + exact Hcap.
     + exact Hle.
     + exact Hshape.
@@ -346,12 +440,49 @@ Proof.
     + exact Hn.
 Qed.
 
+(* the number of Acquire events is [produced] *)
+Lemma produced_step (S CAP : nat) (s : st) (e : ev) (s' : st) :
+  step S CAP s e = Some s' -> produced s' = ev_inc Acquire e + produced s.
+Proof.
+  intros Hs. destruct e; unfold ev_inc; cbn [ev_eqb plus].
+  - destruct (step_acquire _ _ _ _ Hs) as (_ & _ & _ & Hs'). subst s'. reflexivity.
+  - destruct (step_send _ _ _ _ Hs) as (f & _ & _ & Hs'). subst s'. reflexivity.
+  - destruct (step_sendterm _ _ _ _ Hs) as (_ & _ & _ & Hs'). subst s'. reflexivity.
+  - destruct (step_recvwait _ _ _ _ Hs) as (_ & _ & Hs'). subst s'. reflexivity.
+  - destruct (step_recv _ _ _ _ Hs) as (_ & [(q & r & _ & Hs')|(r & _ & Hs')]);
+      subst s'; reflexivity.
+  - destruct (step_fail2 _ _ _ _ Hs) as (_ & _ & Hs'). subst s'. reflexivity.
+Qed.
+
+(* invariant + acquire counter, from an arbitrary start *)
+Lemma inv_run_gen (S CAP n : nat) (evs : list ev) (k : nat) (s0 s : st) :
+  Inv CAP n k s0 -> run S CAP s0 evs = Some s ->
+  Inv CAP n (n_sent evs + k) s /\ produced s = n_acquired evs + produced s0.
+Proof.
+  intros HI Hrun.
+  apply (run_invariant_cnt S CAP
+           (fun k a s => Inv CAP n k s /\ produced s = a)
+           (fun k a s e s' H Hs =>
+              conj (inv_step S CAP n k s e s' (proj1 H) Hs)
+                   (eq_trans (produced_step S CAP s e s' Hs)
+                             (f_equal (Nat.add (ev_inc Acquire e)) (proj2 H))))
+           evs k (produced s0) s0 s (conj HI eq_refl) Hrun).
+Qed.
+
 Lemma inv_run (S CAP n : nat) (evs : list ev) (s : st) :
-  run S CAP (init n) evs = Some s -> Inv CAP n s.
+  run S CAP (init n) evs = Some s -> Inv CAP n (n_sent evs) s.
 Proof.
   intros Hrun.
-  apply (run_invariant S CAP (Inv CAP n) (inv_step S CAP n) evs (init n) s);
-    [apply inv_init|exact Hrun].
+  destruct (inv_run_gen S CAP n evs 0 (init n) s (inv_init CAP n) Hrun) as (HI & _).
+  rewrite Nat.add_0_r in HI. exact HI.
+Qed.
+
+Lemma produced_run (S CAP n : nat) (evs : list ev) (s : st) :
+  run S CAP (init n) evs = Some s -> produced s = n_acquired evs.
+Proof.
+  intros Hrun.
+  destruct (inv_run_gen S CAP n evs 0 (init n) s (inv_init CAP n) Hrun) as (_ & Hp).
+  rewrite Hp. unfold init. prj. lia.
 Qed.
 
 (* ------------------------------------------------------------------ *)
@@ -374,7 +505,7 @@ Proof.
   intros He Hs. destruct e.
   - exfalso. apply He. reflexivity.
   - destruct (step_send _ _ _ _ Hs) as (k & _ & _ & Hs'). subst s'. split; reflexivity.
-  - destruct (step_sendterm _ _ _ _ Hs) as (_ & _ & _ & _ & Hs'). subst s'. split; reflexivity.
+  - destruct (step_sendterm _ _ _ _ Hs) as (_ & _ & _ & Hs'). subst s'. split; reflexivity.
   - destruct (step_recvwait _ _ _ _ Hs) as (_ & _ & Hs'). subst s'. split; reflexivity.
   - destruct (step_recv _ _ _ _ Hs) as (_ & [(k & r & _ & Hs')|(r & _ & Hs')]);
       subst s'; split; reflexivity.
@@ -413,15 +544,28 @@ Proof.
            evs (init n) s); [apply ringok_init|exact Hrun].
 Qed.
 
-Lemma inv_safe (S CAP n : nat) (s : st) :
-  CAP + 2 <= S -> Inv CAP n s -> RingOk S s -> Safe S s.
+Lemma inv_safe (S CAP n k : nat) (s : st) :
+  CAP + 2 <= S -> Inv CAP n k s -> RingOk S s -> Safe S s.
 Proof.
   intros HC HI Hr i Hi.
-  destruct (inv_live _ _ _ HI) as (lo & Hl & Hlo & _).
+  destruct (inv_live_seq _ _ _ _ HI) as (lo & Hl & Hlo & Hp).
   pose proof (live_length_le s) as Hlen.
-  pose proof (inv_cap _ _ _ HI) as Hcap.
+  pose proof (inv_cap _ _ _ _ HI) as Hcap.
   rewrite Hl in Hi. apply in_seq in Hi.
   rewrite Hl, seq_length in Hlen.
+  (* the window: at most one buffer (the abandoned one) lies between the live
+     ids and [produced]; the terminator then occupies a channel place *)
+  assert (Hwin : produced s <= lo + CAP + 2).
+  { destruct (filling s) as [f|] eqn:Hf; cbn [opt_list length] in *; [lia|].
+    pose proof (inv_fill _ _ _ _ HI) as Hfill. rewrite Hf in Hfill.
+    destruct Hfill as [Hpk|(Hpk & Ht)]; [lia|].
+    destruct (inv_live _ _ _ _ HI) as (lo' & Hl' & Hlo' & _).
+    unfold live in Hl. rewrite Hf in Hl. cbn [opt_list] in Hl.
+    rewrite app_nil_r in Hl.
+    assert (Hq : length (opt_list (held s)) + length (qids (queue s)) = k - lo).
+    { rewrite <- app_length, Hl, seq_length. lia. }
+    pose proof (qids_length (queue s)) as Hql.
+    destruct (held s); cbn [opt_list length] in Hq; lia. }
   apply Hr; lia.
 Qed.
 
@@ -432,7 +576,7 @@ Theorem ring_safe (S CAP n : nat) (evs : list ev) (s : st) :
 Proof.
   intros HC Hrun.
   assert (HS : 0 < S) by lia.
-  apply (inv_safe S CAP n s HC).
+  apply (inv_safe S CAP n (n_sent evs) s HC).
   - exact (inv_run S CAP n evs s Hrun).
   - exact (ringok_run S CAP n evs s HS Hrun).
 Qed.
@@ -463,31 +607,157 @@ Proof.
   exists s1. split; [exact H1|exact (ring_safe S CAP n a s1 HC H1)].
 Qed.
 
-(* ===== Theorem 2: in-order, gap-free, repeat-free consumption ===== *)
+(* Safety of EVERY acquire, stated on the step: the write of an Acquire (also
+   of the one whose buffer will later be abandoned) goes to a slot that holds
+   no live buffer -- everything that was live before is intact afterwards. *)
+Corollary ring_acquire_safe (S CAP n : nat) (evs : list ev) (s s' : st) :
+  CAP + 2 <= S ->
+  run S CAP (init n) evs = Some s -> step S CAP s Acquire = Some s' ->
+  filling s' = Some (produced s) /\
+  ring s' (produced s mod S) = produced s /\
+  (forall i, In i (live s) -> ring s' (i mod S) = i /\ i mod S <> produced s mod S).
+Proof.
+  intros HC Hrun Hs.
+  assert (Hrun' : run S CAP (init n) (evs ++ [Acquire]) = Some s').
+  { rewrite run_app, Hrun. cbn [run]. rewrite Hs. reflexivity. }
+  pose proof (ring_safe S CAP n _ s' HC Hrun') as Hsafe'.
+  pose proof (ring_safe S CAP n _ s HC Hrun) as Hsafe.
+  destruct (step_acquire _ _ _ _ Hs) as (Hf & _ & _ & Hs'). subst s'.
+  split; [reflexivity|].
+  assert (Hnew : ring (st_acquire S s) (produced s mod S) = produced s).
+  { unfold st_acquire, upd. prj. rewrite Nat.eqb_refl. reflexivity. }
+  split; [exact Hnew|].
+  intros i Hi.
+  assert (Hi' : In i (live (st_acquire S s))).
+  { unfold live, st_acquire. prj. unfold live in Hi. rewrite Hf in Hi.
+    cbn [opt_list] in Hi. rewrite app_nil_r in Hi.
+    rewrite app_assoc. apply in_or_app. left. exact Hi. }
+  pose proof (Hsafe' i Hi') as Hr.
+  split; [exact Hr|].
+  intros E. rewrite E, Hnew in Hr. subst i.
+  (* the new id is not live before the acquire *)
+  pose proof (inv_run S CAP n evs s Hrun) as HI.
+  destruct (inv_live_seq _ _ _ _ HI) as (lo & Hl & _ & Hp).
+  rewrite Hl, Hf in Hi. cbn [opt_list length] in Hi. apply in_seq in Hi.
+  pose proof (inv_fill _ _ _ _ HI) as Hfill. rewrite Hf in Hfill.
+  destruct (step_acquire _ _ _ _ Hs) as (_ & Ht & _ & _).
+  destruct Hfill as [Hpk|(_ & Hx)]; [lia|]. rewrite Ht in Hx. discriminate Hx.
+Qed.
+
+(* ===== Theorem 2: in-order, gap-free, repeat-free consumption =====
+   The buffers SENT by the producer are [seq 0 (n_sent evs)] (ids are handed
+   out in order and every buffer is sent before the next one is acquired; an
+   abandoned buffer is the last one and is never sent).  At EVERY reachable
+   state the consumer has consumed a prefix of them, in order; as long as it
+   has not failed, what it has consumed followed by what is in the channel is
+   exactly what was sent; when both sides are done a consumer that did not
+   fail has consumed exactly the sent buffers.  All [n] acquired buffers were
+   sent, or all but the last one (the producer abandoned it). *)
+
+(* what was sent = what was consumed ++ what is still in the channel *)
+Lemma ring_sent_accounted (S CAP n : nat) (evs : list ev) (s : st) :
+  run S CAP (init n) evs = Some s -> failed s = false ->
+  consumed s ++ qids (queue s) = seq 0 (n_sent evs).
+Proof.
+  intros Hrun Hfa.
+  pose proof (inv_run S CAP n evs s Hrun) as HI.
+  destruct (inv_live _ _ _ _ HI) as (lo & Hl & Hlo & _ & Hce).
+  specialize (Hce Hfa).
+  rewrite (inv_cons _ _ _ _ HI), Hce.
+  set (k := n_sent evs) in *.
+  destruct (held s) as [h|]; cbn [opt_list app length] in *.
+  - destruct (k - lo) as [|m] eqn:Hm; [discriminate Hl|].
+    cbn [seq] in Hl. injection Hl as _ Hq. rewrite Hq.
+    replace k with ((lo + 1) + m) by lia.
+    rewrite (seq_app (lo + 1) m 0). f_equal. f_equal. lia.
+  - rewrite Hl. replace k with ((lo + 0) + (k - lo)) at 2 by lia.
+    rewrite (seq_app (lo + 0) (k - lo) 0). f_equal. f_equal. lia.
+Qed.
+
 Theorem ring_in_order (S CAP n : nat) (evs : list ev) (s : st) :
   run S CAP (init n) evs = Some s ->
   consumed s = seq 0 (length (consumed s)) /\
-  length (consumed s) <= n /\
-  (failed s = false -> final s = true -> consumed s = seq 0 n).
+  length (consumed s) <= n_sent evs /\
+  n_sent evs <= n_acquired evs <= n /\ n_acquired evs <= n_sent evs + 1 /\
+  (failed s = false -> consumed s ++ qids (queue s) = seq 0 (n_sent evs)) /\
+  (failed s = false -> final s = true -> consumed s = seq 0 (n_sent evs)) /\
+  (final s = true -> n_acquired evs = n /\
+                     (producer_abandoned evs = false -> n_sent evs = n) /\
+                     (producer_abandoned evs = true -> n_sent evs + 1 = n)).
 Proof.
   intros Hrun.
   pose proof (inv_run S CAP n evs s Hrun) as HI.
-  destruct HI as [Hlive Hcap Hle Hshape Hterm Hfin Hwait Hcons Hn].
+  pose proof (produced_run S CAP n evs s Hrun) as Hpa.
+  pose proof (inv_live_seq _ _ _ _ HI) as (lo0 & _ & _ & Hpk).
+  destruct HI as [Hlive Hfill Hcap Hle Hshape Hterm Hfin Hwait Hcons Hn].
   destruct Hlive as (lo & Hl & Hlo & Hcl & Hce).
-  assert (Hlen : lo + length (opt_list (held s)) <= produced s).
-  { assert (Hll : length (live s) = produced s - lo) by (rewrite Hl; apply seq_length).
-    unfold live in Hll. rewrite app_length in Hll. lia. }
-  split; [exact Hcons|]. split; [lia|].
-  intros Hfa Hfinal.
-  unfold final in Hfinal. apply andb_prop in Hfinal. destruct Hfinal as (Ht & Hfi).
-  destruct (Hfin Hfi) as (_ & Hq & _ & Hh).
-  destruct (Hterm Ht) as (Hf & Hp).
-  specialize (Hce Hfa).
-  unfold live in Hl. rewrite Hh, Hq, Hf in Hl. cbn [opt_list qids app] in Hl.
-  rewrite Hh in Hce. cbn [opt_list length] in Hce.
-  assert (Hlo' : lo = produced s).
-  { destruct (produced s - lo) eqn:Hm; [lia|discriminate Hl]. }
-  rewrite Hcons. f_equal. lia.
+  assert (Hlen : lo + length (opt_list (held s)) <= n_sent evs).
+  { assert (Hll : length (opt_list (held s) ++ qids (queue s)) = n_sent evs - lo)
+      by (rewrite Hl; apply seq_length).
+    rewrite app_length in Hll. lia. }
+  split; [exact Hcons|]. split; [lia|]. split; [lia|]. split; [lia|].
+  split; [exact (ring_sent_accounted S CAP n evs s Hrun)|].
+  split.
+  - intros Hfa Hfinal.
+    unfold final in Hfinal. apply andb_prop in Hfinal. destruct Hfinal as (Ht & Hfi).
+    destruct (Hfin Hfi) as (_ & Hq & _ & _).
+    pose proof (ring_sent_accounted S CAP n evs s Hrun Hfa) as Hacc.
+    rewrite Hq in Hacc. cbn [qids] in Hacc. rewrite app_nil_r in Hacc. exact Hacc.
+  - intros Hfinal.
+    unfold final in Hfinal. apply andb_prop in Hfinal. destruct Hfinal as (Ht & Hfi).
+    destruct (Hterm Ht) as (Hf & Hp).
+    unfold producer_abandoned.
+    split; [lia|]. split; intros Hab.
+    + apply Nat.ltb_ge in Hab. lia.
+    + apply Nat.ltb_lt in Hab. lia.
+Qed.
+
+(* for a producer that does not fail nothing changes: all [n] buffers *)
+Corollary ring_in_order_no_abandon (S CAP n : nat) (evs : list ev) (s : st) :
+  run S CAP (init n) evs = Some s ->
+  failed s = false -> final s = true -> producer_abandoned evs = false ->
+  consumed s = seq 0 n.
+Proof.
+  intros Hrun Hfa Hfinal Hab.
+  destruct (ring_in_order S CAP n evs s Hrun) as (_ & _ & _ & _ & _ & Hc & Hn).
+  destruct (Hn Hfinal) as (_ & Hs & _).
+  rewrite <- (Hs Hab). exact (Hc Hfa Hfinal).
+Qed.
+
+(* the abandon is decided by the state in which the terminator is sent: the
+   producer abandons exactly when it sends the terminator while holding a
+   buffer; before the terminator is sent, [n_acquired - n_sent] is the number
+   of buffers being filled *)
+Lemma ring_filling_count (S CAP n : nat) (evs : list ev) (s : st) :
+  run S CAP (init n) evs = Some s ->
+  (term_sent s = false -> n_acquired evs = n_sent evs + length (opt_list (filling s))) /\
+  (filling s <> None -> producer_abandoned evs = true).
+Proof.
+  intros Hrun.
+  pose proof (inv_run S CAP n evs s Hrun) as HI.
+  pose proof (produced_run S CAP n evs s Hrun) as Hpa.
+  pose proof (inv_fill _ _ _ _ HI) as Hfill.
+  split.
+  - intros Ht. destruct (filling s) as [f|]; cbn [opt_list length].
+    + lia.
+    + destruct Hfill as [Hp|(_ & Hx)]; [lia|]. rewrite Ht in Hx. discriminate Hx.
+  - intros Hne. unfold producer_abandoned. apply Nat.ltb_lt.
+    destruct (filling s) as [f|]; [lia|]. exfalso. apply Hne. reflexivity.
+Qed.
+
+Lemma ring_abandon_step (S CAP n : nat) (evs : list ev) (s s' : st) :
+  run S CAP (init n) evs = Some s -> step S CAP s SendTerm = Some s' ->
+  producer_abandoned (evs ++ [SendTerm]) = is_some (filling s).
+Proof.
+  intros Hrun Hs.
+  destruct (step_sendterm _ _ _ _ Hs) as (Ht & _).
+  destruct (ring_filling_count S CAP n evs s Hrun) as (Hc & _).
+  specialize (Hc Ht).
+  unfold producer_abandoned, n_sent, n_acquired in *.
+  rewrite !count_ev_app. cbn [count_ev filter ev_eqb length]. rewrite !Nat.add_0_r.
+  destruct (filling s) as [f|]; cbn [opt_list length is_some] in *.
+  - apply Nat.ltb_lt. lia.
+  - apply Nat.ltb_ge. lia.
 Qed.
 
 (* ===== Theorem 5: a final state is clean ===== *)
@@ -498,9 +768,9 @@ Proof.
   intros Hrun Hfinal.
   pose proof (inv_run S CAP n evs s Hrun) as HI.
   unfold final in Hfinal. apply andb_prop in Hfinal. destruct Hfinal as (Ht & Hfi).
-  destruct (inv_fin _ _ _ HI Hfi) as (_ & Hq & _ & Hh).
-  destruct (inv_term _ _ _ HI Ht) as (Hf & Hp).
-  pose proof (inv_n _ _ _ HI) as Hn.
+  destruct (inv_fin _ _ _ _ HI Hfi) as (_ & Hq & _ & Hh).
+  destruct (inv_term _ _ _ _ HI Ht) as (Hf & Hp).
+  pose proof (inv_n _ _ _ _ HI) as Hn.
   unfold live. rewrite Hq, Hf, Hh. cbn [opt_list qids app].
   repeat split; try reflexivity. lia.
 Qed.
@@ -526,11 +796,11 @@ Proof.
 Qed.
 
 Lemma step_sendterm_ok S CAP s :
-  filling s = None -> term_sent s = false -> produced s = n_total s ->
+  term_sent s = false -> produced s = n_total s ->
   length (queue s) < CAP ->
   step S CAP s SendTerm = Some (st_sendterm s).
 Proof.
-  intros Hf Ht Hp Hlt. unfold step. rewrite Hf, Ht.
+  intros Ht Hp Hlt. unfold step. rewrite Ht.
   destruct (Nat.eqb_spec (produced s) (n_total s)) as [_|Hne]; [|contradiction].
   destruct (Nat.ltb_spec (length (queue s)) CAP) as [_|Hge]; [reflexivity|lia].
 Qed.
@@ -577,14 +847,12 @@ Proof.
 Qed.
 
 (* ===== Theorem 3: no deadlock (progress without failing) ===== *)
-Theorem ring_no_deadlock (S CAP n : nat) (evs : list ev) (s : st) :
-  1 <= CAP ->
-  run S CAP (init n) evs = Some s -> final s = false ->
+Lemma no_deadlock_inv (S CAP n k : nat) (s : st) :
+  1 <= CAP -> Inv CAP n k s -> final s = false ->
   exists e, e <> Fail2 /\ In e (enabled S CAP s).
 Proof.
-  intros HC Hrun Hnf.
-  pose proof (inv_run S CAP n evs s Hrun) as HI.
-  destruct HI as [Hlive Hcap Hle Hshape Hterm Hfin Hwait Hcons Hn].
+  intros HC HI Hnf.
+  destruct HI as [Hlive Hfill Hcap Hle Hshape Hterm Hfin Hwait Hcons Hn].
   destruct (finished s) eqn:Hfi.
   { (* consumer finished: then the terminator was sent, so the state is final *)
     destruct (Hfin eq_refl) as (Ht & _).
@@ -595,15 +863,15 @@ Proof.
       apply step_recvwait_ok; assumption. }
   destruct (queue s) as [|x r] eqn:Hq.
   2:{ exists Recv. split; [discriminate|].
-      destruct x as [k|].
-      - apply (enabled_intro S CAP s Recv (st_recv_buf k r s)).
+      destruct x as [q|].
+      - apply (enabled_intro S CAP s Recv (st_recv_buf q r s)).
         apply step_recv_buf_ok; assumption.
       - apply (enabled_intro S CAP s Recv (st_recv_term r s)).
         apply step_recv_term_ok; assumption. }
   (* consumer blocked on an empty channel: the producer can move *)
-  destruct (filling s) as [k|] eqn:Hf.
+  destruct (filling s) as [f|] eqn:Hf.
   { exists Send. split; [discriminate|].
-    apply (enabled_intro S CAP s Send (st_send k s)).
+    apply (enabled_intro S CAP s Send (st_send f s)).
     apply step_send_ok; [exact Hf|rewrite Hq; cbn [length]; lia]. }
   destruct (term_sent s) eqn:Ht.
   { (* terminator sent, not received, channel empty: impossible *)
@@ -614,7 +882,78 @@ Proof.
     apply step_acquire_ok; assumption.
   - exists SendTerm. split; [discriminate|].
     apply (enabled_intro S CAP s SendTerm (st_sendterm s)).
-    apply step_sendterm_ok; [exact Hf|exact Ht|lia|rewrite Hq; cbn [length]; lia].
+    apply step_sendterm_ok; [exact Ht|lia|rewrite Hq; cbn [length]; lia].
+Qed.
+
+Theorem ring_no_deadlock (S CAP n : nat) (evs : list ev) (s : st) :
+  1 <= CAP ->
+  run S CAP (init n) evs = Some s -> final s = false ->
+  exists e, e <> Fail2 /\ In e (enabled S CAP s).
+Proof.
+  intros HC Hrun Hnf.
+  exact (no_deadlock_inv S CAP n (n_sent evs) s HC (inv_run S CAP n evs s Hrun) Hnf).
+Qed.
+
+(* Progress of each side separately, whatever the producer intends to do with
+   the buffer it holds (send it, or -- if it is the last one -- abandon it):
+   a producer that is not done can make EACH of the moves its control state
+   allows unless the channel is full, and then the consumer can move; a
+   consumer that is not done can move unless it waits on an empty channel, and
+   then the producer can move. *)
+Theorem ring_progress_each (S CAP n : nat) (evs : list ev) (s : st) :
+  1 <= CAP ->
+  run S CAP (init n) evs = Some s ->
+  (term_sent s = false ->
+     (length (queue s) < CAP ->
+        (forall f, filling s = Some f -> In Send (enabled S CAP s)) /\
+        (filling s = None -> produced s < n -> In Acquire (enabled S CAP s)) /\
+        (produced s = n -> In SendTerm (enabled S CAP s))) /\
+     (length (queue s) = CAP ->
+        In RecvWait (enabled S CAP s) \/ In Recv (enabled S CAP s))) /\
+  (finished s = false ->
+     In RecvWait (enabled S CAP s) \/ In Recv (enabled S CAP s) \/
+     (waiting s = true /\ queue s = [] /\ term_sent s = false)).
+Proof.
+  intros HC Hrun.
+  pose proof (inv_run S CAP n evs s Hrun) as HI.
+  destruct HI as [Hlive Hfill Hcap Hle Hshape Hterm Hfin Hwait Hcons Hn].
+  assert (Hcons_side : finished s = false -> queue s <> [] ->
+            In RecvWait (enabled S CAP s) \/ In Recv (enabled S CAP s)).
+  { intros Hfi Hq.
+    destruct (waiting s) eqn:Hw.
+    - right. destruct (queue s) as [|[q|] r] eqn:Hq'; [contradiction| |].
+      + apply (enabled_intro S CAP s Recv (st_recv_buf q r s)).
+        apply step_recv_buf_ok; assumption.
+      + apply (enabled_intro S CAP s Recv (st_recv_term r s)).
+        apply step_recv_term_ok; assumption.
+    - left. apply (enabled_intro S CAP s RecvWait (st_recvwait s)).
+      apply step_recvwait_ok; assumption. }
+  split.
+  - intros Ht. split.
+    + intros Hlt. split; [|split].
+      * intros f Hf. apply (enabled_intro S CAP s Send (st_send f s)).
+        apply step_send_ok; assumption.
+      * intros Hf Hlt'. apply (enabled_intro S CAP s Acquire (st_acquire S s)).
+        apply step_acquire_ok; [exact Hf|exact Ht|lia].
+      * intros Hp. apply (enabled_intro S CAP s SendTerm (st_sendterm s)).
+        apply step_sendterm_ok; [exact Ht|lia|exact Hlt].
+    + intros Hfull. apply Hcons_side.
+      * destruct (finished s) eqn:Hfi; [|reflexivity].
+        destruct (Hfin eq_refl) as (Ht' & _). rewrite Ht in Ht'. discriminate Ht'.
+      * intros Hq. rewrite Hq in Hfull. cbn [length] in Hfull. lia.
+  - intros Hfi.
+    destruct (queue s) as [|x r] eqn:Hq.
+    + destruct (waiting s) eqn:Hw.
+      * right. right. split; [reflexivity|]. split; [reflexivity|].
+        destruct (term_sent s) eqn:Ht; [|reflexivity].
+        rewrite Hfi in Hshape. cbn [qids map negb andb app] in Hshape.
+        discriminate Hshape.
+      * left. apply (enabled_intro S CAP s RecvWait (st_recvwait s)).
+        apply step_recvwait_ok; assumption.
+    + rewrite <- Hq in *.
+      destruct (Hcons_side Hfi) as [H|H]; [rewrite Hq; discriminate| |].
+      * left. exact H.
+      * right. left. exact H.
 Qed.
 
 Corollary ring_no_deadlock_nonempty (S CAP n : nat) (evs : list ev) (s : st) :
@@ -634,8 +973,8 @@ Proof.
   intros Hrun Hfinal.
   pose proof (inv_run S CAP n evs s Hrun) as HI.
   unfold final in Hfinal. apply andb_prop in Hfinal. destruct Hfinal as (Ht & Hfi).
-  destruct (inv_fin _ _ _ HI Hfi) as (_ & Hq & Hw & _).
-  destruct (inv_term _ _ _ HI Ht) as (Hf & _).
+  destruct (inv_fin _ _ _ _ HI Hfi) as (_ & Hq & Hw & _).
+  destruct (inv_term _ _ _ _ HI Ht) as (Hf & _).
   unfold enabled, all_evs, step. rewrite Ht, Hfi, Hw, Hf. reflexivity.
 Qed.
 
@@ -643,12 +982,14 @@ Qed.
 (* Termination measure                                                 *)
 (* ------------------------------------------------------------------ *)
 
-(* messages the consumer has still to receive (buffers + terminator) *)
+(* messages the consumer may still have to receive (buffers + terminator); an
+   upper bound: a buffer being filled is counted although it may be abandoned *)
 Definition pending (s : st) : nat :=
   length (queue s) + length (opt_list (filling s)) + (n_total s - produced s) +
   (if term_sent s then 0 else 1).
 
-(* producer steps left: Acquire and Send for each missing buffer, SendTerm *)
+(* producer steps left (at most): Acquire and Send for each missing buffer,
+   SendTerm *)
 Definition mu_prod (s : st) : nat :=
   if term_sent s then 0
   else 2 * (n_total s - produced s) + length (opt_list (filling s)) + 1.
@@ -673,19 +1014,19 @@ Proof.
   unfold mu_all. rewrite mu_init. unfold init. prj. lia.
 Qed.
 
-Lemma pending_pos (CAP n : nat) (s : st) :
-  Inv CAP n s -> finished s = false -> 1 <= pending s.
+Lemma pending_pos (CAP n k : nat) (s : st) :
+  Inv CAP n k s -> finished s = false -> 1 <= pending s.
 Proof.
   intros HI Hfi. unfold pending.
   destruct (term_sent s) eqn:Ht; [|lia].
-  pose proof (inv_shape _ _ _ HI) as Hshape.
+  pose proof (inv_shape _ _ _ _ HI) as Hshape.
   rewrite Ht, Hfi in Hshape. cbn [andb negb] in Hshape.
   apply (f_equal (@length (option nat))) in Hshape.
   rewrite app_length in Hshape. cbn [length] in Hshape. lia.
 Qed.
 
-Lemma mu_step (S CAP n : nat) (s : st) (e : ev) (s' : st) :
-  Inv CAP n s -> step S CAP s e = Some s' -> e <> Fail2 -> mu s' < mu s.
+Lemma mu_step (S CAP n k : nat) (s : st) (e : ev) (s' : st) :
+  Inv CAP n k s -> step S CAP s e = Some s' -> e <> Fail2 -> mu s' < mu s.
 Proof.
   intros HI Hs He.
   unfold mu, mu_prod, mu_cons, pending.
@@ -693,23 +1034,24 @@ Proof.
   - destruct (step_acquire _ _ _ _ Hs) as (Hf & Ht & Hlt & Hs'). subst s'.
     unfold st_acquire. prj. rewrite Hf, Ht. cbn [opt_list length].
     destruct (finished s), (waiting s); lia.
-  - destruct (step_send _ _ _ _ Hs) as (k & Hf & Hlt & Hs'). subst s'.
+  - destruct (step_send _ _ _ _ Hs) as (f & Hf & Hlt & Hs'). subst s'.
     unfold st_send. prj. rewrite Hf, app_length. cbn [opt_list length].
     assert (Ht : term_sent s = false).
     { destruct (term_sent s) eqn:Ht; [|reflexivity].
-      destruct (inv_term _ _ _ HI Ht) as (Hf' & _). rewrite Hf in Hf'. discriminate Hf'. }
+      destruct (inv_term _ _ _ _ HI Ht) as (Hf' & _). rewrite Hf in Hf'. discriminate Hf'. }
     rewrite Ht.
     destruct (finished s), (waiting s); lia.
-  - destruct (step_sendterm _ _ _ _ Hs) as (Hf & Ht & Hp & Hlt & Hs'). subst s'.
-    unfold st_sendterm. prj. rewrite Hf, Ht, app_length. cbn [opt_list length].
-    destruct (finished s), (waiting s); lia.
+  - destruct (step_sendterm _ _ _ _ Hs) as (Ht & Hp & Hlt & Hs'). subst s'.
+    unfold st_sendterm. prj. rewrite Ht, app_length. cbn [opt_list length].
+    destruct (filling s) as [f|]; cbn [opt_list length];
+      destruct (finished s), (waiting s); lia.
   - destruct (step_recvwait _ _ _ _ Hs) as (Hw & Hfi & Hs'). subst s'.
-    pose proof (pending_pos CAP n s HI Hfi) as Hpos. unfold pending in Hpos.
+    pose proof (pending_pos CAP n k s HI Hfi) as Hpos. unfold pending in Hpos.
     unfold st_recvwait. prj. rewrite Hw, Hfi.
     destruct (term_sent s); lia.
   - destruct (step_recv _ _ _ _ Hs) as (Hw & Hcase).
-    destruct (inv_wait _ _ _ HI Hw) as (_ & Hfi).
-    destruct Hcase as [(k & r & Hq & Hs')|(r & Hq & Hs')]; subst s'.
+    destruct (inv_wait _ _ _ _ HI Hw) as (_ & Hfi).
+    destruct Hcase as [(q & r & Hq & Hs')|(r & Hq & Hs')]; subst s'.
     + unfold st_recv_buf. prj. rewrite Hw, Hfi, Hq. cbn [length].
       destruct (term_sent s); lia.
     + unfold st_recv_term. prj. rewrite Hw, Hfi, Hq. cbn [length].
@@ -717,8 +1059,8 @@ Proof.
   - exfalso. apply He. reflexivity.
 Qed.
 
-Lemma mu_all_step (S CAP n : nat) (s : st) (e : ev) (s' : st) :
-  Inv CAP n s -> step S CAP s e = Some s' -> mu_all s' < mu_all s.
+Lemma mu_all_step (S CAP n k : nat) (s : st) (e : ev) (s' : st) :
+  Inv CAP n k s -> step S CAP s e = Some s' -> mu_all s' < mu_all s.
 Proof.
   intros HI Hs.
   destruct (ev_eqb e Fail2) eqn:Hb.
@@ -727,29 +1069,29 @@ Proof.
     destruct (step_fail2 _ _ _ _ Hs) as (Hfi & Hfa & Hs'). subst s'.
     unfold mu_all, mu, mu_prod, mu_cons, pending, st_fail. prj. rewrite Hfa. lia.
   - assert (Ne : e <> Fail2) by (intros Ee; subst e; discriminate Hb).
-    pose proof (mu_step S CAP n s e s' HI Hs Ne) as Hlt.
+    pose proof (mu_step S CAP n k s e s' HI Hs Ne) as Hlt.
     assert (Hfa : failed s' = failed s).
     { destruct e.
       - destruct (step_acquire _ _ _ _ Hs) as (_ & _ & _ & Hs'). subst s'. reflexivity.
-      - destruct (step_send _ _ _ _ Hs) as (k & _ & _ & Hs'). subst s'. reflexivity.
-      - destruct (step_sendterm _ _ _ _ Hs) as (_ & _ & _ & _ & Hs'). subst s'. reflexivity.
+      - destruct (step_send _ _ _ _ Hs) as (f & _ & _ & Hs'). subst s'. reflexivity.
+      - destruct (step_sendterm _ _ _ _ Hs) as (_ & _ & _ & Hs'). subst s'. reflexivity.
       - destruct (step_recvwait _ _ _ _ Hs) as (_ & _ & Hs'). subst s'. reflexivity.
-      - destruct (step_recv _ _ _ _ Hs) as (_ & [(k & r & _ & Hs')|(r & _ & Hs')]);
+      - destruct (step_recv _ _ _ _ Hs) as (_ & [(q & r & _ & Hs')|(r & _ & Hs')]);
           subst s'; reflexivity.
       - exfalso. apply Ne. reflexivity. }
     unfold mu_all. rewrite Hfa. lia.
 Qed.
 
 Lemma run_bound_gen (S CAP n : nat) (evs : list ev) :
-  forall s s', Inv CAP n s -> run S CAP s evs = Some s' ->
+  forall k s s', Inv CAP n k s -> run S CAP s evs = Some s' ->
                length evs + mu_all s' <= mu_all s.
 Proof.
-  induction evs as [|e evs IH]; intros s s' HI Hrun.
+  induction evs as [|e evs IH]; intros k s s' HI Hrun.
   - cbn [run] in Hrun. injection Hrun as Hrun. subst s'. cbn [length]. lia.
   - cbn [run] in Hrun.
     destruct (step S CAP s e) as [s1|] eqn:Hs; [|discriminate Hrun].
-    pose proof (mu_all_step S CAP n s e s1 HI Hs) as Hlt.
-    pose proof (IH s1 s' (inv_step S CAP n s e s1 HI Hs) Hrun) as Hrec.
+    pose proof (mu_all_step S CAP n k s e s1 HI Hs) as Hlt.
+    pose proof (IH _ s1 s' (inv_step S CAP n k s e s1 HI Hs) Hrun) as Hrec.
     cbn [length]. lia.
 Qed.
 
@@ -765,8 +1107,8 @@ Proof.
   intros Hrun Hs.
   pose proof (inv_run S CAP n evs s Hrun) as HI.
   split.
-  - intros He. exact (mu_step S CAP n s e s' HI Hs He).
-  - exact (mu_all_step S CAP n s e s' HI Hs).
+  - intros He. exact (mu_step S CAP n _ s e s' HI Hs He).
+  - exact (mu_all_step S CAP n _ s e s' HI Hs).
 Qed.
 
 (* (b) any accepted schedule has at most 4*n + 4 events (Fail2 included) *)
@@ -775,7 +1117,7 @@ Theorem ring_terminates (S CAP n : nat) (evs : list ev) (s : st) :
   length evs + mu_all s <= 4 * n + 4 /\ length evs <= 4 * n + 4.
 Proof.
   intros Hrun.
-  pose proof (run_bound_gen S CAP n evs (init n) s (inv_init CAP n) Hrun) as Hb.
+  pose proof (run_bound_gen S CAP n evs 0 (init n) s (inv_init CAP n) Hrun) as Hb.
   rewrite mu_all_init in Hb. lia.
 Qed.
 
@@ -795,7 +1137,7 @@ Proof.
     destruct e; cbn [ev_eqb length].
     + destruct (step_acquire _ _ _ _ Hs) as (_ & _ & _ & Hs'). subst s1. exact Hrec.
     + destruct (step_send _ _ _ _ Hs) as (k & _ & _ & Hs'). subst s1. exact Hrec.
-    + destruct (step_sendterm _ _ _ _ Hs) as (_ & _ & _ & _ & Hs'). subst s1. exact Hrec.
+    + destruct (step_sendterm _ _ _ _ Hs) as (_ & _ & _ & Hs'). subst s1. exact Hrec.
     + destruct (step_recvwait _ _ _ _ Hs) as (_ & _ & Hs'). subst s1. exact Hrec.
     + destruct (step_recv _ _ _ _ Hs) as (_ & [(k & r & _ & Hs')|(r & _ & Hs')]);
         subst s1; exact Hrec.
@@ -809,6 +1151,64 @@ Proof.
   intros Hrun. pose proof (fail2_count_gen S CAP evs (init n) s Hrun) as H.
   change (failed (init n)) with false in H. cbv iota in H.
   destruct (failed s); lia.
+Qed.
+
+(* (d) both stages can always run to completion: from every reachable state
+       -- whoever has failed so far: nobody, the consumer (Fail2), the producer
+       (terminator sent with a buffer withheld), or both in either order --
+       some continuation without a further failure reaches a final state, and
+       (by (a), (b) and [ring_no_deadlock]) every continuation that is carried
+       on long enough does *)
+Lemma can_finish_inv (S CAP n : nat) :
+  1 <= CAP ->
+  forall m k s, Inv CAP n k s -> mu s <= m ->
+    exists evs' s', run S CAP s evs' = Some s' /\ final s' = true /\
+                    count_fail2 evs' = 0 /\ length evs' <= mu s.
+Proof.
+  intros HC m.
+  induction m as [|m IH]; intros k s HI Hm.
+  - destruct (final s) eqn:Hfinal.
+    + exists [], s. cbn [run length]. repeat split; [exact Hfinal|lia].
+    + exfalso.
+      destruct (no_deadlock_inv S CAP n k s HC HI Hfinal) as (e & Hne & Hin).
+      apply in_enabled in Hin.
+      destruct (step S CAP s e) as [s1|] eqn:Hs; [|apply Hin; reflexivity].
+      pose proof (mu_step S CAP n k s e s1 HI Hs Hne). lia.
+  - destruct (final s) eqn:Hfinal.
+    + exists [], s. cbn [run length]. repeat split; [exact Hfinal|lia].
+    + destruct (no_deadlock_inv S CAP n k s HC HI Hfinal) as (e & Hne & Hin).
+      apply in_enabled in Hin.
+      destruct (step S CAP s e) as [s1|] eqn:Hs; [|exfalso; apply Hin; reflexivity].
+      pose proof (mu_step S CAP n k s e s1 HI Hs Hne) as Hlt.
+      destruct (IH _ s1 (inv_step S CAP n k s e s1 HI Hs) ltac:(lia))
+        as (evs1 & s' & Hrun1 & Hfin1 & Hc1 & Hlen1).
+      exists (e :: evs1), s'. cbn [run length]. rewrite Hs.
+      split; [exact Hrun1|]. split; [exact Hfin1|]. split; [|lia].
+      unfold count_fail2 in *. cbn [filter].
+      destruct e; cbn [ev_eqb]; try exact Hc1. exfalso. apply Hne. reflexivity.
+Qed.
+
+Theorem ring_can_finish (S CAP n : nat) (evs : list ev) (s : st) :
+  1 <= CAP ->
+  run S CAP (init n) evs = Some s ->
+  exists evs' s', run S CAP (init n) (evs ++ evs') = Some s' /\ final s' = true /\
+                  count_fail2 evs' = 0 /\ length evs' <= mu s.
+Proof.
+  intros HC Hrun.
+  destruct (can_finish_inv S CAP n HC (mu s) (n_sent evs) s
+              (inv_run S CAP n evs s Hrun) (le_n _))
+    as (evs' & s' & Hrun' & Hfin & Hc & Hlen).
+  exists evs', s'. rewrite run_app, Hrun. repeat split; assumption.
+Qed.
+
+(* a run that cannot be extended has ended properly *)
+Corollary ring_maximal_is_final (S CAP n : nat) (evs : list ev) (s : st) :
+  1 <= CAP ->
+  run S CAP (init n) evs = Some s -> enabled S CAP s = [] -> final s = true.
+Proof.
+  intros HC Hrun Hnil.
+  destruct (final s) eqn:Hfinal; [reflexivity|].
+  exfalso. exact (ring_no_deadlock_nonempty S CAP n evs s HC Hrun Hfinal Hnil).
 Qed.
 
 (* ------------------------------------------------------------------ *)
@@ -943,7 +1343,7 @@ Proof.
   - destruct (step_acquire _ _ _ _ Hs) as (_ & _ & _ & Hs'). subst s'.
     split; assumption.
   - destruct (step_send _ _ _ _ Hs) as (k & _ & Hlt & _). lia.
-  - destruct (step_sendterm _ _ _ _ Hs) as (_ & _ & _ & Hlt & _). lia.
+  - destruct (step_sendterm _ _ _ _ Hs) as (_ & _ & Hlt & _). lia.
   - destruct (step_recvwait _ _ _ _ Hs) as (_ & _ & Hs'). subst s'.
     split; [exact Hq|reflexivity].
   - destruct (step_recv _ _ _ _ Hs) as (_ & [(k & r & Hq' & _)|(r & Hq' & _)]);
@@ -962,12 +1362,11 @@ Proof.
   { apply (run_invariant S 0 (fun s0 => queue s0 = [] /\ held s0 = None)
              (cap0_step S) evs (init n) s); [split; reflexivity|exact Hrun]. }
   destruct H0 as (Hq & Hh).
-  destruct (inv_live _ _ _ HI) as (lo & Hl & Hlo & _).
+  pose proof (inv_fill _ _ _ _ HI) as Hfill.
   intros i Hi.
-  assert (Hlen : length (live s) <= 1).
-  { unfold live. rewrite Hq, Hh. cbn [opt_list qids app].
-    destruct (filling s); cbn [opt_list length]; lia. }
-  rewrite Hl in Hi, Hlen. rewrite seq_length in Hlen. apply in_seq in Hi.
+  unfold live in Hi. rewrite Hq, Hh in Hi. cbn [opt_list qids app] in Hi.
+  destruct (filling s) as [f|]; cbn [opt_list In] in Hi; [|contradiction].
+  destruct Hi as [Hi|[]]. subst i. destruct Hfill as (Hf & Hp).
   apply Hr; lia.
 Qed.
 
@@ -1043,6 +1442,129 @@ Example empty_run_ok :
   check_run 16 14 0 [SendTerm; RecvWait; Recv] 0 = true.
 Proof. vm_compute. reflexivity. Qed.
 
+(* ---- stage-1 failure: the producer abandons the buffer it has filled ---- *)
+
+(* the trace recorded from the real code (unterminated document needing two
+   buffers): A W S A T R W R.  Accepted, every state safe, final; buffer 0 was
+   sent and consumed, buffer 1 was acquired (its slot written) and never sent *)
+Definition real_abandon_trace : list ev :=
+  [Acquire; RecvWait; Send; Acquire; SendTerm; Recv; RecvWait; Recv].
+
+Example real_abandon_trace_ok :
+  check_run_sent 16 14 2 real_abandon_trace 1 1 true = true.
+Proof. vm_compute. reflexivity. Qed.
+
+Example real_abandon_trace_final :
+  match run 16 14 (init 2) real_abandon_trace with
+  | Some s => final s = true /\ consumed s = [0] /\ produced s = 2 /\ live s = [] /\
+              failed s = false /\ enabled 16 14 s = [] /\ ring s 1 = 1
+  | None => False
+  end.
+Proof. vm_compute. repeat split. Qed.
+
+(* before this extension the trace was rejected at the T: the old guard
+   [filling s = None] is exactly what fails there *)
+Example real_abandon_trace_state_at_T :
+  option_map (fun s => (filling s, produced s, n_total s, queue s))
+             (run 16 14 (init 2) (firstn 4 real_abandon_trace))
+  = Some (Some 1, 2, 2, [Some 0]).
+Proof. vm_compute. reflexivity. Qed.
+
+(* nothing outstanding: the very first buffer is abandoned (e.g. a document
+   without any structural character); stage 2 only sees the terminator *)
+Example abandon_first_buffer :
+  check_run_sent 16 14 1 [Acquire; SendTerm; RecvWait; Recv] 0 0 true = true.
+Proof. vm_compute. reflexivity. Qed.
+
+(* nothing outstanding, eager consumer: everything sent has been consumed and
+   the consumer is blocked in receive when the producer gives up buffer 39 *)
+Example abandon_eager_consumer :
+  check_run_sent 16 14 40
+    (greedy 16 14 consumer_first_producer_fails 1000 (init 40)) 39 39 true = true.
+Proof. vm_compute. reflexivity. Qed.
+
+(* one buffer outstanding (queued, not yet received) *)
+Example abandon_one_outstanding :
+  check_run_sent 16 14 2
+    [Acquire; Send; Acquire; SendTerm; RecvWait; Recv; RecvWait; Recv] 1 1 true = true.
+Proof. vm_compute. reflexivity. Qed.
+
+(* many outstanding: 13 buffers queued, the 14th abandoned, the terminator
+   takes the last place of the channel; the consumer has not started *)
+Definition abandon_full_channel : list ev :=
+  rep_evs 13 [Acquire; Send] ++ [Acquire; SendTerm] ++ rep_evs 14 [RecvWait; Recv].
+
+Example abandon_many_outstanding :
+  check_run_sent 16 14 14 abandon_full_channel 13 13 true = true /\
+  option_map (fun s => (length (queue s), filling s))
+             (run 16 14 (init 14) (firstn 28 abandon_full_channel)) = Some (14, None).
+Proof. vm_compute. split; reflexivity. Qed.
+
+(* ... one more and the producer must wait for the consumer before it can
+   even send the terminator: its abandoned buffer stays live (and safe) *)
+Example abandon_blocked_on_full_channel :
+  option_map (fun s => (enabled 16 14 s, filling s, safe_b 16 s))
+             (run 16 14 (init 15) (rep_evs 14 [Acquire; Send] ++ [Acquire]))
+  = Some ([RecvWait; Fail2], Some 14, true).
+Proof. vm_compute. reflexivity. Qed.
+
+(* lagging consumer over 40 buffers (the ring wraps twice), last one abandoned *)
+Example abandon_lagging_consumer :
+  check_run_sent 16 14 40
+    (greedy 16 14 producer_fails_first 1000 (init 40)) 39 39 true = true.
+Proof. vm_compute. reflexivity. Qed.
+
+(* both stages fail.  Consumer first (after 60 steps: 8 buffers consumed),
+   then the producer abandons buffer 39 while the consumer drains *)
+Example both_fail_consumer_first :
+  check_run_sent 16 14 40
+    (failing_schedule_prio 16 14 40 60 producer_fails_first producer_fails_first)
+    8 39 true = true.
+Proof. vm_compute. reflexivity. Qed.
+
+(* consumer fails before anything happens, producer abandons at the end *)
+Example both_fail_consumer_at_start :
+  check_run_sent 16 14 20
+    (failing_schedule_prio 16 14 20 0 producer_fails_first producer_fails_first)
+    0 19 true = true.
+Proof. vm_compute. reflexivity. Qed.
+
+(* producer first: it abandons buffer 4 with four buffers queued, the consumer
+   parses buffer 0, fails, and drains the other three and the terminator *)
+Definition both_fail_producer_first : list ev :=
+  rep_evs 4 [Acquire; Send] ++ [Acquire; SendTerm; RecvWait; Recv; Fail2] ++
+  rep_evs 4 [RecvWait; Recv].
+
+Example both_fail_producer_first_ok :
+  check_run_sent 16 14 5 both_fail_producer_first 1 4 true = true.
+Proof. vm_compute. reflexivity. Qed.
+
+(* the consumer fails after it has already received the terminator of a
+   failed producer?  No: Fail2 is not enabled once it has finished *)
+Example no_fail_after_finish :
+  run 16 14 (init 1) [Acquire; SendTerm; RecvWait; Recv; Fail2] = None.
+Proof. vm_compute. reflexivity. Qed.
+
+(* what the extension does NOT allow: the terminator before the last Acquire
+   of the run, and any producer event after the terminator *)
+Example no_early_terminator : run 16 14 (init 2) [Acquire; SendTerm] = None.
+Proof. vm_compute. reflexivity. Qed.
+Example no_send_after_abandon : run 16 14 (init 1) [Acquire; SendTerm; Send] = None.
+Proof. vm_compute. reflexivity. Qed.
+Example no_acquire_after_abandon : run 16 14 (init 2) [Acquire; Send; Acquire; SendTerm; Acquire] = None.
+Proof. vm_compute. reflexivity. Qed.
+
+(* the hypotheses of the theorems are met by a failing-producer run, and the
+   conclusions of [ring_in_order] are tight on it *)
+Example abandon_in_order_instance :
+  match run 16 14 (init 40) (greedy 16 14 producer_fails_first 1000 (init 40)) with
+  | Some s => failed s = false /\ final s = true /\ consumed s = seq 0 39 /\
+              n_sent (greedy 16 14 producer_fails_first 1000 (init 40)) = 39 /\
+              n_acquired (greedy 16 14 producer_fails_first 1000 (init 40)) = 40
+  | None => False
+  end.
+Proof. vm_compute. repeat split. Qed.
+
 (* one slot too few: S = 16, CAP = 15 *)
 Example bad_run_16_15 :
   match run 16 15 (init 17) (bad_schedule 16 15) with
@@ -1074,5 +1596,14 @@ Print Assumptions ring_final_empty.
 Print Assumptions Ring_refuted.
 Print Assumptions ring_cap0_safe.
 Print Assumptions ring_safe_iff.
+Print Assumptions ring_acquire_safe.
+Print Assumptions ring_sent_accounted.
+Print Assumptions ring_in_order_no_abandon.
+Print Assumptions ring_filling_count.
+Print Assumptions ring_abandon_step.
+Print Assumptions ring_progress_each.
+Print Assumptions ring_can_finish.
+Print Assumptions ring_maximal_is_final.
+Print Assumptions real_abandon_trace_ok.
 Print Assumptions lagging_run_ok.
 Print Assumptions bad_run_16_15.
